@@ -400,10 +400,19 @@ def gen_basis_cases(pid, what, seed, tier, lmax, count, extra, start_id, with_se
             basis = [cg.shell(rng, rng.randint(0, lmax), bits=bits, cen=rng.choice(cens) if rng.random() < 0.6 else None)
                      for _ in range(n)]
         c = {"id": start_id + d, "pid": pid, "what": what, "kind": "basis", "basis": basis, "spread": d % 4 == 1, "far": d % 4 == 3}
-        if with_second and d % 2 == 0:
+        if with_second and d % 2 == 0 and d % 4 != 3 and d % 4 != 1:
             c["basis2"] = [cg.shell(rng, rng.randint(0, lmax), bits=bits,
                                     cen=rng.choice(cens) if rng.random() < 0.5 else None)
                            for _ in range(rng.randint(1, 2))]
+            # the two type lists are dispatched independently: all four uniform combinations and the mixed ones in turn
+            combo = (d // 4) % 5
+            if combo < 4:
+                for s_ in basis:
+                    s_["type"] = ["spherical", "cartesian"][combo % 2]
+                for s_ in c["basis2"]:
+                    s_["type"] = ["cartesian", "spherical"][combo // 2]
+                    if s_["l"] < 2:
+                        s_["l"] = 2
         if rng.random() < 0.35:
             ntot = sum(layout.size(s) for s in basis)
             rows = rng.randint(1, ntot + 1)
